@@ -453,30 +453,42 @@ def collect_inputs_for_node(
 
     inputs = {}
     for param in node.inputs:
-        if isinstance(node, GraphNode) and _nested_run_resolves_default(param, node, graph, state, provided_values):
+        if isinstance(node, GraphNode) and _nested_run_resolves(param, node, graph, state, provided_values):
             continue
         inputs[param] = _resolve_input(param, node, graph, state, provided_values)
     return inputs
 
 
-def _nested_run_resolves_default(
+def _nested_run_resolves(
     param: str,
     node: Any,
     graph: Graph,
     state: GraphState,
     provided_values: dict[str, Any],
 ) -> bool:
-    """True when a GraphNode input would only be filled from an inner signature default.
+    """True when a GraphNode input would only be filled from the inner graph itself.
 
-    The nested run resolves (and deep-copies) its own defaults, once per run.
-    Resolving it here instead would hand ONE copy to every item of a mapped
-    GraphNode, so items would see each other's mutations of the default.
-    A mapped parameter is still resolved here: its list is what gets mapped.
+    That is: from a value bound on the inner graph, or from an inner signature
+    default. The nested run resolves these itself, once per run: a default is
+    deep-copied per run (per item when the node maps, never one copy shared by
+    all items), and a bound value never goes through the ``clone`` path of
+    ``map_over``. A mapped parameter is still resolved here: its list is what
+    gets mapped.
     """
     if node.map_config and param in node.map_config[0]:
         return False
-    source, _ = get_value_source(param, node, graph, state, provided_values)
-    return source == ValueSource.DEFAULT
+    if param in state.values or param in provided_values or param in graph._bound:
+        return False
+    source, value = get_value_source(param, node, graph, state, provided_values)
+    if source == ValueSource.DEFAULT:
+        return True
+    if source == ValueSource.BOUND:
+        # Only the node's OWN inner binding (another nested graph may expose a
+        # binding under the same name, which this node then receives from here).
+        own = node._graph.inputs.bound
+        original_param = node._resolve_original_input_name(param)
+        return original_param in own and own[original_param] is value
+    return False
 
 
 def _resolve_input(
